@@ -41,6 +41,8 @@ ARGVS = {
     'i_dir': ['-i', '../src/inc', '-o', 'out.bin'],
     'i_bad': ['-i', 'nonexistent_dir', '-l', 'labels.txt'],
     'defs_v': ['--include-definitions', '-v', '-o', 'out.bin', '-l', 'labels.txt'],
+    'hex_sym': ['--hex-offset', '@H@', '-o', 'out.bin'],
+    'hex_sym_l': ['-l', 'labels.txt', '--hex-offset', '@H@'],
 }
 
 
@@ -91,14 +93,15 @@ def cli_task(prog, argv_name):
             v.add_text(pth, text.replace('K', '@K@'))
         v.install(asm)
         K = p.int('K', 40)
+        H = p.int('H', lo=0, hi=(1 << 32) - 1)
         comp = p.bool('compress')
-        Markers.table = {'K': K}
+        Markers.table = {'K': K, 'H': H}
         Formatted.table = {}
         argv = ['bronzebeard'] + (['-c'] if comp else []) + ARGVS[argv_name] + ['../src/main.asm']
         log = []
         sys.modules['intelhex'] = FakeIntelHex(log, v)
         captured.clear()
-        p.notes.update(vfs=v, K=K, comp=comp, argv=argv, hexlog=log)
+        p.notes.update(vfs=v, K=K, H=H, comp=comp, argv=argv, hexlog=log)
         old_argv = sys.argv
         sys.argv = argv
         asm.sys = sys
@@ -116,12 +119,14 @@ def cli_task(prog, argv_name):
         v, log = p.notes['vfs'], p.notes['hexlog']
         model = p.witness()
         kv = core.concrete(p.notes['K'], model)
+        hv = core.concrete(p.notes['H'], model)
         cv = core.concrete(p.notes['comp'], model)
         failed = kind == 'exc'        # any exception, SystemExit(message / non-zero) included
         # ---- replay in a real directory tree with a real subprocess-free call ----
-        got = _real_cli(real, prog, p.notes['argv'], kv)
+        real_argv = [hex(hv) if a == '@H@' else a for a in p.notes['argv']]
+        got = _real_cli(real, prog, real_argv, kv)
         sym_writes = sorted({pth for ev, pth in v.writes if ev == 'open-w'})
-        symc = ('fail' if failed else 'ok', sym_writes, [(e[0], e[1].split('/')[-1], e[2].split('/')[-1], e[3]) for e in log])
+        symc = ('fail' if failed else 'ok', sym_writes, [(e[0], e[1].split('/')[-1], e[2].split('/')[-1], core.concrete(e[3], model)) for e in log])
         realc = (got['status'], sorted(got['changed']), got['hexlog'])
         if symc != realc:
             res.inconc('%s: witness replay mismatch K=%d -c=%s: symbolic %r real %r' % (tag, kv, cv, symc, realc))
@@ -129,7 +134,7 @@ def cli_task(prog, argv_name):
         res['validated'] += 1
         if len(res['samples']) < 2:
             res['samples'].append(dict(argv=p.notes['argv'], K=kv, status=got['status'], files_written=got['changed'], error=got.get('error', '')[:80]))
-        setting = dict(program=prog, argv=p.notes['argv'], K=kv)
+        setting = dict(program=prog, argv=real_argv, K=kv)
         if failed:
             n_fail += 1
             ok = not v.writes and not log
@@ -163,9 +168,13 @@ def cli_task(prog, argv_name):
             if lines is None or not _labels_ok(lines, labels):
                 probs.append('-l file is not one "name 0x%%08x" line per label: %r' % (lines,))
         if '--hex-offset' in args:
-            off = int(args[args.index('--hex-offset') + 1], 0)
+            hx = args[args.index('--hex-offset') + 1]
+            if hx == '@H@':
+                off_ok = len(log) == 1 and isinstance(log[0][3], SymInt) and p.sat(Not(log[0][3] == p.notes['H']))[0] == 'unsat'
+            else:
+                off_ok = len(log) == 1 and log[0][3] == int(hx, 0)
             if not (len(log) == 1 and v.abspath(log[0][1]) == outp and v.abspath(log[0][2]) == outp + '.hex'
-                    and log[0][3] == off and ('write', outp) in log[0][4]):
+                    and off_ok and ('write', outp) in log[0][4]):
                 probs.append('bin2hex not called with (output, output.hex, offset) after the binary was written: %r' % (log,))
         elif log:
             probs.append('bin2hex called without --hex-offset')
